@@ -991,8 +991,15 @@ func (p *partition) handleLeaderOffsetRequest(msg *nats.Msg) {
 		p.srv.logger.Errorf("Invalid leader epoch offset request for partition %s: %v", p, err)
 		return
 	}
+	endOffset := p.log.LastOffsetForLeaderEpoch(req.LeaderEpoch)
+	if req.LeaderEpoch < p.log.LastLeaderEpoch() {
+		// This is the start offset of a later epoch, i.e. the offset of its
+		// first message. The follower keeps the offset it is sent, so send
+		// the last offset before that epoch.
+		endOffset--
+	}
 	resp, err := proto.MarshalLeaderEpochOffsetResponse(&proto.LeaderEpochOffsetResponse{
-		EndOffset: p.log.LastOffsetForLeaderEpoch(req.LeaderEpoch),
+		EndOffset: endOffset,
 	})
 	if err != nil {
 		panic(err)
